@@ -779,7 +779,7 @@ def fix_model_init(spec):
 def gen(ctx):
     quick = ctx.tier == 'quick'
     rng = ctx.rng('gen')
-    n = 700 if quick else 9000
+    n = 700 if quick else 36000
     for i in range(n):
         r = rng.random()
         if r < 0.55:
